@@ -496,6 +496,10 @@ var txUpdateOnlyKinds = map[string]bool{"vetoPnf": true, "vetoCnf": true, "vetoD
 	"ixPB": true, "ixPA": true, "ixPD": true, "ixCB": true, "ixCA": true, "ixCD": true, "ixDB": true, "ixDA": true, "ixDD": true,
 	"tagbad0": true, "tagbad2": true, "tagbadS": true, "tagkeyempty": true, "tagkeybig": true, "lP3": true, "lC2": true}
 
+// kinds also enumerated with a context from NewTxMutateContext (mode r): its commit actions must run once on commit,
+// never on rollback; its pre-commit actions are nobody's business
+var txRawKinds = map[string]bool{"caller": true, "pre": true, "vetoP": true, "ixPa": true, "fail1after": true, "linkmissing": true}
+
 // txFaultCase: setup tx, then the faulty body in the given mode (with a commit action registered at
 // its start and a harmless pre-commit action), then a follow-up transaction that must still work.
 func txFaultCase(body []txStep, pos int, kind string, mode byte, reuse bool, swallow bool) (string, bool) {
@@ -597,6 +601,13 @@ func txEnumFaultsOver(ops []txStep, n int, modes []byte, emit func(string)) {
 					}
 					if line, ok := txFaultCase(body, pos, kind, 'u', false, true); ok {
 						emit(line)
+					}
+					// the same through a context built with NewTxMutateContext around the transaction (mode r), for a
+					// selection of kinds
+					if txRawKinds[kind] {
+						if line, ok := txFaultCase(body, pos, kind, 'r', false, false); ok {
+							emit(line)
+						}
 					}
 					// the failed transaction's context is used again by the transaction that follows (and commits):
 					// nothing the failed one queued may run then
@@ -834,6 +845,13 @@ func txRandomCase(r *rng, p txProfile) string {
 		tx := txTx{mode: 'u', reuse: r.chance(1, 3)}
 		if r.intn(100) < p.batch {
 			tx.mode = 'b'
+		} else if r.chance(1, 10) {
+			// through a context from NewTxMutateContext; it ends with the transaction
+			tx.mode = 'r'
+			tx.reuse = false
+		}
+		if t > 0 && len(c.txs) > 0 && c.txs[len(c.txs)-1].mode == 'r' {
+			tx.reuse = false
 		}
 		n := 1 + r.intn(p.maxSteps)
 		depth := 0
